@@ -293,8 +293,9 @@ def verify_lemma(table, reg, name, timeout_ms=None):
         n_ok = 0
         for s, ctl in outs:
             if ctl[0] == "raise":
-                # a lemma program must not raise on any feasible path
-                eng.oblige("noexc.%s" % ctl[1].cls, "lemma", s, z3.BoolVal(False))
+                # a lemma states what holds when the calls complete normally; paths on which a
+                # callee raises (as its contract allows) are outside the statement
+                continue
             else:
                 n_ok += 1
         # vacuity: at least one path reaches the end with satisfiable assumptions
